@@ -763,7 +763,11 @@ class BasePlaceholderManager(MpfController):
     def _eval_subscript(self, node, variables, subscribe):
         value, subscription = self._eval(node.value, variables, subscribe)
         if isinstance(node.slice, ast.Constant):
-            return value[node.slice.value], subscription
+            try:
+                return value[node.slice.value], subscription
+            except (TypeError, ValueError):
+                # e.g. index into an unset (None) variable or current_player outside of a game
+                raise TemplateEvalError(subscription)
         if isinstance(node.slice, ast.Index):
             slice_value, slice_subscript = self._eval(node.slice.value, variables, subscribe)
             try:
